@@ -351,6 +351,10 @@ def gen_stitch(rng, tier):
         ub = [day(b) for b in rand_bounds(rng, m, strict=True)]
         n = rng.choice(list(range(1, m + 1)))
         tag = 'roundtrip-n%d' % min(n, 3) + ('+empty' if any(len(p) == 0 for p in dfs) else '')
+        if m >= 2 and rng.random() < 0.3:
+            # the quantifier's DECREASING bound lists: series and bounds in the reverse order; df_slice reverses both,
+            # df_unslice has to read the bounds the same way and hand its series back in the order of the bounds it was given
+            dfs, ub, tag = dfs[::-1], ub[::-1], tag.replace('roundtrip-', 'roundtrip-decreasing-')
         yield dict(tag=tag, lines=[roundtrip_line(dfs, ub, n)])
     # series holding NaN values: the statement does not exclude them; a stitched row that is NaN throughout is lost by
     # df_unslice (nona) - known finding C13-N1, every other round trip with NaN values must still be exact
@@ -359,7 +363,10 @@ def gen_stitch(rng, tier):
         dfs = [rand_series_days(rng, nan=rng.choice([0.1, 0.3])) for _ in range(m)]
         ub = [day(b) for b in rand_bounds(rng, m, strict=True)]
         n = rng.choice(list(range(1, m + 1)))
-        yield dict(tag='roundtrip-nan-n%d' % min(n, 3) + ('+all-nan-row' if has_all_nan_row(dfs, ub, n) else ''), lines=[roundtrip_line(dfs, ub, n)])
+        tag = 'roundtrip-nan-n%d' % min(n, 3) + ('+all-nan-row' if has_all_nan_row(dfs, ub, n) else '')
+        if rng.random() < 0.3:
+            dfs, ub, tag = dfs[::-1], ub[::-1], tag.replace('roundtrip-', 'roundtrip-decreasing-')
+        yield dict(tag=tag, lines=[roundtrip_line(dfs, ub, n)])
     # bounds that repeat ("increasing" read strictly excludes them): df_unslice files two series under one bound and the
     # re-stitch is refused (ValueError) - model and code must agree on that
     for _ in range(n_rt // 10):
@@ -541,6 +548,8 @@ def gen_slices(rng, tier):
 
 def has_all_nan_row(dfs, ub, n):
     """does the frame the statement prescribes hold a row that is NaN in every column?"""
+    if len(ub) >= 2 and all(a > b for a, b in zip(ub, ub[1:])):
+        dfs, ub = dfs[::-1], ub[::-1]                    # a decreasing bound list is the increasing one read backwards
     if len(ub) != len(dfs) or any(a >= b for a, b in zip(ub, ub[1:])):
         return False
     _, rows = py_stitch(dfs, ub, n)
@@ -623,12 +632,17 @@ def run_line(state, sx):
 def compare(case, i, line, ir, mr):
     sx = proto.parse(line)
     op = sx[1]
+    rt = None
     if op == 'roundtrip' and ir.startswith('ok (T'):
         isx = proto.parse(ir[3:])
         if proto.canon(isx[1]) != proto.canon(isx[3]):
-            return 'stitching the series recovered by df_unslice does not reproduce the frame: %s became %s' % (proto.render(isx[1]), proto.render(isx[3]))
+            rt = RT_MSG + ': %s became %s' % (proto.render(isx[1]), proto.render(isx[3]))
     if proto.same_reply(ir, mr):
-        return None
+        return rt                   # the statement's own verdict on a line where implementation and model agree
+    if rt is not None:
+        # the correspondence is NOT switched off on a failing round trip: the finding says that the model disagrees too
+        # (matcher `roundtrip_all_nan_row` accepts only findings on which the two agree)
+        return rt + '; ' + MODEL_DIFFERS + ': %s' % mr
     if mr == 'bad-op':
         return ('divergence', 'the model does not cover this line (malformed or out of scope): implementation %s' % ir)
     if ir.startswith('err') and mr.startswith('err'):
@@ -640,6 +654,10 @@ def compare(case, i, line, ir, mr):
         if proto.canon(isx[1]) == proto.canon(msx[1]) and proto.canon(isx[3]) == proto.canon(msx[3]):
             return ('divergence', 'df_unslice hands out different series than the model (the re-stitched frame agrees): %s vs %s' % (proto.render(isx[2]), proto.render(msx[2])))
     return 'implementation %s, specification (model) %s' % (ir, mr)
+
+
+RT_MSG = 'stitching the series recovered by df_unslice does not reproduce the frame'
+MODEL_DIFFERS = 'moreover the specification (model) answers differently'
 
 
 def nontrivial(line, reply):
@@ -745,10 +763,13 @@ def laws(rng, tier, ctx):
         if len(set(idx)) != len(idx):
             yield Finding('violation', case, 'a timestamp is covered more than once')
             continue
-        case = dict(tag='law-roundtrip', lines=[roundtrip_line(dfs, ub, n)])
+        rub = ub
+        if rng.random() < 0.3:
+            rub = ub[::-1]                                # the same frame, the bounds spelled in decreasing order
+        case = dict(tag='law-roundtrip' + ('-decreasing' if rub is not ub else ''), lines=[roundtrip_line(dfs if rub is ub else dfs[::-1], rub, n)])
         try:
-            u = df_unslice(f, ub)
-            g = df_slice(list(u.values()), ub=ub, n=n)
+            u = df_unslice(f, rub)
+            g = df_slice(list(u.values()), ub=rub, n=n)
         except Exception as e:
             yield Finding('violation', case, 'df_unslice / re-stitching raised %s' % type(e).__name__)
             continue
@@ -840,7 +861,20 @@ def roundtrip_all_nan_row(f):
     dfs = [_dec_pairs(x) for x in sx[2][1:]]
     if any(len(set(t for t, _ in p)) != len(p) or [t for t, _ in p] != sorted(t for t, _ in p) for p in dfs):
         return False
-    return has_all_nan_row(dfs, dec_dates(sx[3]), int(sx[4][2:]))
+    if not has_all_nan_row(dfs, dec_dates(sx[3]), int(sx[4][2:])):
+        return False
+    # ... and the finding must BE C13-N1: the statement's round-trip verdict on a line where implementation and model
+    # agree, the re-stitched frame being the stitched one minus exactly its all-NaN rows.  A wrong stitched frame, a raise,
+    # a re-stitch that loses a row holding a value are not this finding and stay violations.
+    if RT_MSG not in f.detail or MODEL_DIFFERS in f.detail or not f.impl or not isinstance(f.model, str):
+        return False
+    ir = f.impl[getattr(f, 'line_index', 0)]
+    if not proto.same_reply(ir, f.model) or not ir.startswith('ok (T'):
+        return False
+    isx = proto.parse(ir[3:])
+    F, G = proto.canon(isx[1]), proto.canon(isx[3])          # ('T', width, ('L', row*)), row = ('T', time, cell*)
+    live = tuple(r for r in F[2][1:] if any(c != ('F', 'nan') for c in r[2:]))
+    return F[1] == G[1] and tuple(G[2][1:]) == live and len(live) < len(F[2][1:])
 
 
 MATCHERS = {'roundtrip_all_nan_row': roundtrip_all_nan_row}
